@@ -54,7 +54,7 @@ def plain_kwargs(name):
 
 # ---------------------------------------------------------------- normalisers: (eligible?, alter)
 def n_case(rng, v):
-    if isinstance(v, str) and v.lower() != v.upper():
+    if isinstance(v, str) and v.isascii() and v.lower() != v.upper():     # bytes.lower() is ASCII-only: non-ASCII letter case is not what the option promises for bytes
         return rng.choice([v.upper(), v.lower(), v.swapcase()])
     return None
 
@@ -76,13 +76,13 @@ def n_numtype(rng, v):
 
 
 def n_sig(rng, v):
-    if type(v) is float:
+    if type(v) is float and v == v and abs(v) != float('inf'):
         return v + rng.choice([1e-5, -1e-5, 2e-6])
     return None
 
 
 def n_eps(rng, v):
-    if type(v) is float:
+    if type(v) is float and v == v and abs(v) != float('inf'):
         return v + rng.choice([0.004, -0.004, 0.001])
     return None
 
@@ -134,8 +134,13 @@ NORMALISERS = {
     'default_timezone': (n_default_tz, False),
     'exclude_types': (n_excluded, False),
     'ignore_nan_inequality': (n_nan, False),
-    'use_enum_value': (n_enum, False),
+    'use_enum_value': (n_enum, True),
 }
+NONASCII = ['é', 'Ünï', 'naïve café', '日本']
+import decimal as _decimal
+ODD_NUMS = [float('inf'), float('-inf'), 1 - 2j, -1.5 + 0.25j, _decimal.Decimal('Infinity'), _decimal.Decimal('2.50')]
+NANS = [float('nan'), _decimal.Decimal('NaN')]          # a nan differs from itself in the plain diff: only where a non-empty plain diff is allowed
+ODD_DATES = [datetime.date(2024, 5, 1), datetime.date(2020, 2, 29), datetime.timedelta(days=1, seconds=5), datetime.timedelta(0), datetime.time(12, 30, 15), datetime.time(1, 2, 3, 400)]
 
 
 def apply_normaliser(rng, v, fn, keys_too, p=0.6, stats=None):
@@ -190,15 +195,20 @@ def gen_value(ctx, name=None):
     scal = STRS + NUMS + [None, True, False]
     keys = ['a', 'b', 'Key', 'x y', 'ab', 1, 2, 10, 1.5, None, '__p']
     if name in ('truncate_datetime', 'default_timezone', None):
-        scal = scal + DT
+        scal = scal + DT + ODD_DATES
+    if name in ('significant_digits', 'ignore_numeric_type_changes', 'math_epsilon', None):
+        scal = scal + ODD_NUMS + (NANS if name is None else [])
+    if name in ('ignore_string_type_changes', None):
+        scal = scal + NONASCII
     if name in ('ignore_nan_inequality',):
         scal = scal + [float('nan')]
     if name in ('use_enum_value',):
         scal = scal + [Color.RED, Color.GREEN]
+        keys = ['a', 'b', 'Key', 'x y', 2, 10, None, '__p', Color.RED, Color.GREEN]          # not 1 / 'green': they would collapse with the members' values
     if name in ('ignore_string_type_changes',):
         scal = scal + [b'a', b'bytes']
     if name in ('ignore_string_case', 'ignore_string_type_changes'):
-        keys = ['a', 'b', 'Key', 'x y', 'ab', 'UP']            # finding F9 region: numeric keys raise under these two options alone
+        keys = ['a', 'b', 'Key', 'x y', 'ab', 'UP'] + (['é', '日本'] if name == 'ignore_string_type_changes' else [])
     g = Gen(ctx.rng, scalars=scal, keys=keys, kinds=('dict', 'list', 'tuple'), max_depth=3, max_width=4, p_leaf=0.4)
     return g.container()
 
@@ -323,6 +333,34 @@ def run(ctx, impl_only=False):
     ]
     regress.append(('F27', lambda: DeepDiff([1.5, 'a'], ['a', b'a'], exclude_types=[float], ignore_string_type_changes=True) == {}
                     and DeepDiff((10.0, 10), (31.25, 10), exclude_types=[float]) == {}))
+    class _K(enum.Enum):
+        RED = 1; GREEN = 'green'
+    import decimal as _dc
+    def _total(f):
+        try:
+            f(); return True
+        except Exception:
+            return False
+    regress += [
+        ('F31', lambda: _total(lambda: DeepDiff([_dt.date(2020, 1, 1)], [_dt.date(2020, 1, 2)], truncate_datetime='minute'))
+            and _total(lambda: DeepDiff([_dt.timedelta(1)], [_dt.timedelta(2)], truncate_datetime='day'))
+            and DeepDiff([_dt.date(2020, 1, 1), _dt.timedelta(1)], [_dt.date(2020, 1, 1), _dt.timedelta(1)], truncate_datetime='hour') == {}),
+        ('F32', lambda: 'values_changed' in DeepDiff([1 - 2j], [1 - 3j], significant_digits=2) and DeepDiff([1 - 2j], [1 - 2.00001j], significant_digits=2) == {}),
+        ('F33', lambda: 'values_changed' in DeepDiff([float('nan')], [1.0], significant_digits=0) and 'values_changed' in DeepDiff([float('inf')], [1.0], significant_digits=0)
+            and DeepDiff([float('-inf'), 2.4], [float('-inf'), 2.1], significant_digits=0) == {}),
+        ('F34', lambda: 'values_changed' in DeepDiff([_dc.Decimal('Infinity')], [_dc.Decimal(1)], significant_digits=2)
+            and DeepDiff([_dc.Decimal('-Infinity')], [_dc.Decimal('-Infinity')], significant_digits=0) == {}),
+        ('F35', lambda: DeepDiff(['é', {'日本': 1}], ['é'.encode(), {'日本'.encode(): 1}], ignore_string_type_changes=True) == {}
+            and 'values_changed' in DeepDiff(['é'], ['è'.encode()], ignore_string_type_changes=True)),
+        ('F36', lambda: DeepDiff({_K.GREEN: 1, 'b': [_K.RED]}, {'green': 1, 'b': [1]}, use_enum_value=True) == {}
+            and DeepDiff({_K.RED: 'x'}, {1: 'x'}, use_enum_value=True, significant_digits=3) == {}
+            and DeepDiff({_K.RED: 'x'}, {1.0: 'x'}, use_enum_value=True, ignore_numeric_type_changes=True) == {}
+            and DeepDiff({_K.GREEN: 'x'}, {'GREEN': 'x'}, use_enum_value=True, ignore_string_case=True) == {}),
+        ('F37', lambda: DeepDiff(['Ünï'], ['Ünï'.encode()], ignore_string_type_changes=True, ignore_string_case=True) == {}
+            and DeepDiff(['Ünï'.encode()], ['üNÏ'.encode()], ignore_string_case=True) == {}),
+        ('F38', lambda: 'values_changed' in DeepDiff([1 - 2j], [1 - 3j], math_epsilon=0.01) and DeepDiff([1 - 2j], [1 - 2.001j], math_epsilon=0.01) == {}
+            and 'values_changed' in DeepDiff([1 - 2j], [100], math_epsilon=0.01, ignore_numeric_type_changes=True)),
+    ]
     for fid, fn in regress:
         ctx.evaluations += 1
         try:
@@ -331,6 +369,22 @@ def run(ctx, impl_only=False):
             ok = False
         if not ok:
             ctx.violate({'witness': fid}, 'the repaired case %s fails again' % fid)
+    open_witnesses(ctx, findings)
+
+
+def open_witnesses(ctx, findings):
+    from deepdiff import DeepDiff
+    wit = {'F40': lambda: DeepDiff([{1.0, 5}], [{1.0000001, 5}], math_epsilon=0.01) == {}}
+    for fid, fn in wit.items():
+        ctx.evaluations += 1
+        try:
+            ok = fn()
+        except Exception:
+            ok = False
+        if fid in findings:
+            (ctx.known_not_reproduced if ok else ctx.known_reproduced).append(fid if ok else '%s: %s' % (fid, findings[fid]['what_fails']))
+        elif not ok:
+            ctx.violate({'witness': fid}, 'boundary witness %s fails and is not a listed finding' % fid)
 
 
 TYPE_NAMES = {str: 'str', int: 'int', float: 'float', bool: 'bool', list: 'list', tuple: 'tuple', dict: 'dict', type(None): 'NoneType', bytes: 'bytes', set: 'set'}
